@@ -52,22 +52,30 @@ func TestVerifC14(t *testing.T) {
 	defer out.Close()
 	if p := os.Getenv("VERIF_REPLAY"); p != "" {
 		if scn, ok := vhloopLoadReplay(p); ok {
-			out.Emit(vhloopRun("C14", scn))
+			if !vhloopEmit(out, vhloopRun("C14", scn)) {
+				return
+			}
 			return
 		}
 	}
 	r := vhRand()
 	for _, scn := range vh14Corpus() {
-		out.Emit(vhloopRunB("C14", scn))
+		if !vhloopEmit(out, vhloopRunB("C14", scn)) {
+			return
+		}
 		scn.Frag = true
 		scn.Name += "-frag"
-		out.Emit(vhloopRunB("C14", scn))
+		if !vhloopEmit(out, vhloopRunB("C14", scn)) {
+			return
+		}
 	}
 	nrand := 80
 	if vhThorough() {
 		nrand = 800
 	}
 	for k := 0; k < nrand; k++ {
-		out.Emit(vhloopRunB("C14", vhloopRandomFlush(r, vhloopName("randflush%d", k))))
+		if !vhloopEmit(out, vhloopRunB("C14", vhloopRandomFlush(r, vhloopName("randflush%d", k)))) {
+			return
+		}
 	}
 }
